@@ -21,6 +21,7 @@ def compile_ex(arg: dict) -> dict:
     out = rsjson.rs_to_json(c.routine_infos, c.routine_ops, c.named_coroutines)
     out["macro_order"] = list(c.macro_resolution_order)
     out["lens"] = [len(c.routine_infos), len(c.named_coroutines), len(c.routine_ops)]
+    out["shared_params"] = shared_params(c.routine_ops)
     return out
 
 
@@ -29,8 +30,19 @@ def compile_ex_many(args: list[dict]) -> list[dict]:
 
 
 def jump_table(_: Any = None) -> dict:
-    from explorerscript.ssb_converting import ssb_special_ops as so
-    return dict(so.OPS_WITH_JUMP_TO_MEM_OFFSET)
+    """the PINNED specification table (lean/ESV/Beh/Spec.lean via harness/spec_tables.py): the oracle must not follow an
+    edited OPS_WITH_JUMP_TO_MEM_OFFSET of the /repo under test (the tie of /repo's table to it is ESV.TableTie)"""
+    from . import spec_tables
+    return dict(spec_tables.OPS_WITH_JUMP)
+
+
+def shared_params(routine_ops: Any) -> list:
+    """[[offset, offset, ...]] for every params list OBJECT that more than one op of the result holds"""
+    by_id: dict = {}
+    for r in routine_ops:
+        for op in r:
+            by_id.setdefault(id(op.params), []).append(op.offset)
+    return [offs for offs in by_id.values() if len(offs) > 1]
 
 
 def ssbs_round(arg: dict) -> dict:
